@@ -22,12 +22,15 @@
 //! `unnest_columns` and SQL `unnest()` deliberately differ on NULL lists (preserve_nulls true vs false): lists are only
 //! built with `make_array(e1, e2[, e3])`, which is never NULL.
 //!
-//! Known findings (genuine, outcome-keyed signatures): `offset-only-limit-under-sort` — EnsureRequirements does not treat
-//! GlobalLimitExec(skip=n, fetch=None) as order-sensitive: it pushes a later SortExec below it (plain SQL repro: SELECT id FROM
-//! (SELECT * FROM t0 ORDER BY id DESC OFFSET 1) ORDER BY id ASC returns 1,2 for ids 0,1,2) or removes the SortExec feeding it
-//! when a projection sits in between (SELECT p FROM ((SELECT * FROM (SELECT * FROM t0 ORDER BY id DESC OFFSET 1) AS x) UNION ALL
-//! (SELECT * FROM (SELECT * FROM t0 ORDER BY id DESC OFFSET 1) AS y)) skips the wrong row); the two sides' plans have different
-//! shapes, so they go wrong differently. The proposed patch repairs the push-down path only. `window-builder-default-frame` — `ExprFunctionExt::order_by(..).build()` without a frame
+//! Known findings (genuine, outcome-keyed signatures): EnsureRequirements does not treat GlobalLimitExec(skip=n, fetch=None) as
+//! order-sensitive. (a) `offset-only-limit-under-sort` — FIXED in /repo (5f59134, same defect as C01 `nested-offset-without-limit`):
+//! a later SortExec was pushed below the limit (SELECT id FROM (SELECT * FROM t0 ORDER BY id DESC OFFSET 1) ORDER BY id ASC returned
+//! 1,2 for ids 0,1,2); its case is a plain regression now. (b) `offset-only-limit-sort-removed` — OPEN: the SortExec feeding the limit
+//! is removed when a projection sits in between and the operator above needs no order (SELECT p FROM ((SELECT * FROM (SELECT * FROM
+//! t0 ORDER BY id DESC OFFSET 1) AS x) UNION ALL (SELECT * FROM (SELECT * FROM t0 ORDER BY id DESC OFFSET 1) AS y)) skips the wrong
+//! row); the two sides' plans have different shapes, so they go wrong differently. The signatures are told apart by what sits above
+//! the skip-only limit in the chain: a sort directly above it = (a), any other operator (projection, set operation, join, ..) = (b).
+//! `window-builder-default-frame` — `ExprFunctionExt::order_by(..).build()` without a frame
 //! builds ROWS UNBOUNDED PRECEDING..CURRENT ROW (it passes "has an ORDER BY" where WindowFrame::new expects "ordering is
 //! strict"), while SQL text without a frame means RANGE: peers (rows with equal keys) get different running aggregates.
 //! Planner defects met by the thorough tier where BOTH sides fail (discarded as `both sides fail with an internal error`, nothing to compare):
@@ -895,10 +898,19 @@ fn failure_signature(case: &Case, r: &CaseResult) -> Option<String> {
     if !m.starts_with("DataFrame rows differ") {
         return None;
     }
-    // a skip-only limit (OFFSET without LIMIT): EnsureRequirements does not treat it as order-sensitive (it looks at fetch() only)
-    // and pushes a later sort below it or drops the sort feeding it, differently for differently shaped plans
-    if case.ops.iter().any(|o| matches!(o, Op::SortLimit { skip, fetch: None, .. } if *skip > 0)) {
-        return Some("offset-only-limit-under-sort".to_string());
+    // a skip-only limit (OFFSET without LIMIT) that is not the end of the chain: EnsureRequirements looks at fetch() only.
+    // (a) `offset-only-limit-under-sort` (fixed in /repo by 5f59134): a sort DIRECTLY above the limit was pushed below it;
+    // (b) `offset-only-limit-sort-removed` (open): any other operator above the limit — the SortExec feeding the limit is dropped when a
+    //     projection lies between them and nothing above asks for that order (also a later sort on other keys).
+    if let Some(at) = case.ops.iter().position(|o| matches!(o, Op::SortLimit { skip, fetch: None, .. } if *skip > 0)) {
+        match case.ops.get(at + 1) {
+            // the end of the chain: the statement's own output requirement keeps the sort
+            None => {}
+            // (a) a sort directly above the limit (was pushed below it)
+            Some(Op::Sort { .. } | Op::SortLimit { .. }) => return Some("offset-only-limit-under-sort".to_string()),
+            // (b) anything else above it (every other op puts a projection / an order-agnostic operator on top of the limit)
+            Some(_) => return Some("offset-only-limit-sort-removed".to_string()),
+        }
     }
     // an ordered aggregate window function without an explicit frame: the expression builder defaults to ROWS, SQL to RANGE
     let default_frame = |e: &Expr| matches!(e, Expr::Win(w) if matches!(w.f, WinFunc::Agg(_)) && !w.order_by.is_empty() && w.frame.is_none());
